@@ -145,7 +145,12 @@ func (r *remoteReplicator) IsReady() bool {
 		if r.isSuspend.CompareAndSwap(false, true) {
 			r.statistics.FollowerOffline.Incr()
 			r.state.Store(&state{state: models.ReplicatorFailureState, errMsg: "follower node is offline"})
-			<-r.suspend // wait follower node online
+			// NOTE: follower node maybe came online after checking live node and before setting suspend flag,
+			// that online event didn't see the flag and will not notify, so need check live node again,
+			// only wait if node is offline or the notification is on the way(flag already cleared by notifier).
+			if _, live := r.stateMgr.GetLiveNode(follower); !live || !r.isSuspend.CompareAndSwap(true, false) {
+				<-r.suspend // wait follower node online
+			}
 		}
 		return r.IsReady() // check replicator is ready now
 	}
